@@ -6,7 +6,8 @@
 //! MAYV_CANCEL coroutines are cancelled by main at a random schedule point (also while they wait).
 //! MAYV_CV=1: actor 0 waits on a Condvar (re-locks the mutex with the cancel disabled: the `b_ignore`
 //! path of Mutex::lock), actor 1 is the notifier that keeps the mutex for a while after notify_one, the
-//! others queue up behind; main cancels actor 0 while it re-locks (the F1 schedule, notes/repro/mx.rs).
+//! others queue up behind; main cancels actor 0 while it re-locks (the F1 schedule, notes/repro/mx.rs): with
+//! MAYV_AIM=1 (default) main waits for the notify before it counts down to the cancel.
 //!
 //! Oracles on the implementation (independent of the model):
 //!   * occupancy never 2 (checked on entry and on exit of every critical section)
@@ -30,6 +31,9 @@ static OCC: AtomicUsize = AtomicUsize::new(0);
 static ACQ: AtomicUsize = AtomicUsize::new(0);
 static DONE: AtomicUsize = AtomicUsize::new(0);
 static GO: AtomicUsize = AtomicUsize::new(0);
+static NOTIFIED: AtomicUsize = AtomicUsize::new(0);
+static WAITING: AtomicUsize = AtomicUsize::new(0);
+const HOLD_KEY: usize = 0x7777_0001;
 
 /// first thing every actor does: wait until all actors exist (coroutine objects are pooled: an actor that
 /// finished before the next one is spawned would hand its identity on), then announce itself to the acceptor
@@ -124,6 +128,7 @@ fn cv_waiter(sh: Arc<Shared>, who: usize) {
     c.log("lock.ret", 0, 0, None);
     while !*g {
         c.log("cv.wait.call", 0, 0, None);
+        WAITING.store(1, Ordering::SeqCst);
         g = sh.cv.wait(g).unwrap();
         c.log("cv.wait.ret", 0, 0, None);
     }
@@ -135,15 +140,28 @@ fn cv_waiter(sh: Arc<Shared>, who: usize) {
 }
 
 /// actor 1 of the condvar variant: sets the flag, notifies, keeps the mutex for a while
-fn cv_notifier(sh: Arc<Shared>, who: usize, hold: usize) {
+fn cv_notifier(sh: Arc<Shared>, who: usize, hold: usize, wait_cancel: bool) {
     let c = mayv::ctx();
     hello(who);
+    // usually let the waiter get to its Condvar::wait first (it holds the mutex until the wait releases it)
+    if wait_cancel && c.rand() % 5 != 0 {
+        let mut n = 0;
+        while WAITING.load(Ordering::SeqCst) == 0 && n < 2000 {
+            c.yield_now();
+            n += 1;
+        }
+    }
     c.log("lock.call", 0, 0, None);
     let mut g = sh.m.lock().unwrap();
     c.log("lock.ret", 0, 0, None);
     *g = true;
     sh.cv.notify_one();
+    NOTIFIED.store(1, Ordering::SeqCst);
     critical(&sh, who, hold);
+    // keep the mutex until main has cancelled the waiter that is re-locking it (blocks in the harness, no spinning)
+    if wait_cancel {
+        may::verif::Hooks::block(c.ctl, HOLD_KEY, None);
+    }
     c.log("unlock.call", 0, 0, None);
     drop(g);
     c.log("unlock.ret", 0, 0, None);
@@ -173,6 +191,7 @@ fn main() {
     let ncancel = envn("MAYV_CANCEL", 1);
     let cvmode = envn("MAYV_CV", 0) == 1;
     let spread = envn("MAYV_SPREAD", 40) as u64;
+    let aim = envn("MAYV_AIM", 1) == 1;
     run(cfg, move |ctx| {
         ctx.log("mx.actor", 99, 0, None);
         let sh = Arc::new(Shared { m: may::sync::Mutex::new(false), cv: may::sync::Condvar::new(), plain: UnsafeCell::new(0) });
@@ -183,7 +202,8 @@ fn main() {
                 Box::new(move || cv_waiter(sh2, k))
             } else if cvmode && k == 1 {
                 let hold = 2 + (ctx.rand() % 4) as usize;
-                Box::new(move || cv_notifier(sh2, k, hold))
+                let wait_cancel = aim && ncancel > 0 && mix[0] == 'c';
+                Box::new(move || cv_notifier(sh2, k, hold, wait_cancel))
             } else {
                 Box::new(move || plain_actor(sh2, k, iters, try_pct))
             };
@@ -207,14 +227,25 @@ fn main() {
                 victims.push(k);
             }
         }
-        for &k in &victims {
-            let wait = ctx.rand() % spread.max(1);
+        for (vi, &k) in victims.iter().enumerate() {
+            // condvar variant: aim at the window in which actor 0 re-locks the mutex that the notifier still holds
+            if cvmode && aim && vi == 0 {
+                let mut guard = 0;
+                while NOTIFIED.load(Ordering::SeqCst) == 0 && guard < 2000 {
+                    ctx.yield_now();
+                    guard += 1;
+                }
+            }
+            let wait = ctx.rand() % (if cvmode && aim && vi == 0 { 120 } else { spread.max(1) });
             for _ in 0..wait {
                 ctx.yield_now();
             }
             if let H::C(h) = &hs[k] {
                 ctx.log("mx.cancel", k as u64, 0, None);
                 unsafe { h.coroutine().cancel() };
+            }
+            if cvmode && aim && vi == 0 {
+                may::verif::Hooks::wake(ctx.ctl, HOLD_KEY);
             }
         }
         let mut cancelled_done = 0usize;
